@@ -438,6 +438,9 @@ def corpus():
     ov = [("w", opt("A")), ("x", opt("A.X"))]
     cs += [case_(ov, A12, {"A": {"X": 2, "Y": 7}, "Z": 5}), case_(ov, A12, {"Z": 9, "A": {"Y": 3, "X": 2}}),
            case_(ov, A12, {"A": {"X": 2}}), case_(ov, {"A": {"X": {"P": [2, {"k": 3}]}}}, {"A": {"X": {"P": [2, {"k": 3}]}}})]
+    # prefix overlap where the reported key sets differ: {A, A.X} vs {A}
+    pre = [("a", opt("A")), ("ax", opt("A.X", 7, True))]
+    cs += [case_(pre, {"A": {"X": 2}}, {"A": {}}), case_(pre, {"A": {"X": 7}}, {"A": {}}), case_(pre, {"A": {"X": 7}}, {"A": {"X": 7}})]
     # deep key, section key next to it
     deep = [("a", opt("S.T.U")), ("zed", opt("S.T"))]
     cs += [case_(deep, {"S": {"T": {"U": 2, "V": 3}}}, {"S": {"T": {"V": 3, "U": 2}}}),
